@@ -203,11 +203,44 @@ def r_single_writer(model, rep, owner, attr, allowed, rule_id="R-SINGLE-WRITER")
             n_checked += 1
             if f.cls is cls and f.node.name in allowed:
                 continue
-            offenders.append("%s (line %s: %s)" % (f.qname, node.lineno, ast.unparse(node)[:70]))
+            offenders.append((f, "%s (line %s: %s)" % (f.qname, node.lineno, ast.unparse(node)[:70])))
+    # a private helper the rules do not know (extracted from a writer) is part of the writers that call it -- as long as
+    # *every* call site of that name lies in an allowed writer (or in another such helper)
+    from ..known_funcs import KNOWN_FUNCS
+    helpers = {}
+    for f, _ in offenders:
+        if f.qname not in KNOWN_FUNCS and f.node.name.startswith("_") and not f.node.name.startswith("__") \
+                and (f.cls is cls or (f.cls is None and f.module is cls.module)):
+            helpers[f.node.name] = f
+    changed = True
+    while changed and helpers:
+        changed = False
+        for name in list(helpers):
+            sites = []
+            for g in model.all_functions():
+                for node in ast.walk(g.node):
+                    if isinstance(node, ast.Call) and ((isinstance(node.func, ast.Attribute) and node.func.attr == name)
+                                                       or (isinstance(node.func, ast.Name) and node.func.id == name)):
+                        sites.append(g)
+                    elif isinstance(node, (ast.Attribute, ast.Name)) and not isinstance(getattr(node, "ctx", None), ast.Store) \
+                            and (getattr(node, "attr", None) == name or getattr(node, "id", None) == name):
+                        pass
+            ok_sites = sites and all((g.cls is cls and g.node.name in allowed) or (g.node.name in helpers and g is helpers[g.node.name])
+                                     for g in sites)
+            # the helper must not escape as a value (passed around / stored): count its mentions
+            mentions = 0
+            for g in model.all_functions():
+                for node in ast.walk(g.node):
+                    if (isinstance(node, ast.Attribute) and node.attr == name) or (isinstance(node, ast.Name) and node.id == name):
+                        mentions += 1
+            if not ok_sites or mentions != len(sites):
+                del helpers[name]
+                changed = True
+    offenders = [msg for f, msg in offenders if not (f.node.name in helpers and helpers[f.node.name] is f)]
     ok = not offenders
     rep.ob(rule_id, "%s.%s" % (owner, attr), ok, site="productmd/%s.py" % cls.module.name,
            msg="" if ok else "%s.%s is written outside %s: %s" % (owner, attr, sorted(allowed), "; ".join(offenders)),
-           facts={"writes_found": n_checked, "allowed": sorted(allowed)})
+           facts={"writes_found": n_checked, "allowed": sorted(allowed), "helpers_of_allowed_writers": sorted(helpers)})
     if n_checked < 1:
         raise AnalysisError("vacuity guard: no write of %s.%s found at all" % (owner, attr))
     # embedded positive example: the matcher must see a raw insertion
